@@ -57,6 +57,10 @@ func genAffinityPlan(seed uint64, tier string) *Plan {
 			if g.chance(12) {
 				// a slow final answer: it crosses the transport table's once-a-minute clean-up
 				op.I["d2"] = 61000000 + g.intn(140000000)
+			} else if op.S["prov"] != "" && g.chance(35) {
+				// the backend writes its provisional and final answers without a pause: the proxy finds them back to
+				// back in its socket queue, in that order
+				op.I["b2b"] = 1
 			}
 			if sameSentBy {
 				op.S["sentby"] = "10.1.0.1:5060"
@@ -93,11 +97,12 @@ func execAffinity(t *testing.T, p *Plan) *Result {
 					if code > 100 {
 						rp.toTag = "t" + strings.ReplaceAll(id, "-", "")
 					}
+					rp.b2b = op.I["b2b"] == 1
 					out = append(out, rp)
 					t += 100 * time.Microsecond
 				}
 			}
-			out = append(out, respPlan{delay: t + time.Duration(op.I["d2"])*time.Microsecond, status: op.I["final"], toTag: "t" + strings.ReplaceAll(id, "-", ""), expires: -1})
+			out = append(out, respPlan{delay: t + time.Duration(op.I["d2"])*time.Microsecond, status: op.I["final"], toTag: "t" + strings.ReplaceAll(id, "-", ""), expires: -1, b2b: op.I["b2b"] == 1})
 			return out
 		}
 		l := p.Cfg.Listens[0]
